@@ -474,10 +474,15 @@ func (a *APIServer) runFuzz(ctx context.Context, msgs []FuzzMsg, log *Log) error
 			return err
 		}
 		// liveness: another client's ordinary request must still be answered
-		pctx, pcancel := context.WithTimeout(ctx, 10*time.Second)
-		pres, perr := pb.NewListerClient(probe).ListAccounts(pctx, &pb.ListAccountsRequest{Paths: []string{"W2"}})
-		pcancel()
-		alive := perr == nil && len(pres.GetAccounts()) == 2
+		alive := false
+		var perr error
+		for try := 0; try < 3 && !alive; try++ { // a loaded machine may be slow; a dead or wedged server stays silent for all three
+			pctx, pcancel := context.WithTimeout(ctx, 10*time.Second)
+			var pres *pb.ListAccountsResponse
+			pres, perr = pb.NewListerClient(probe).ListAccounts(pctx, &pb.ListAccountsRequest{Paths: []string{"W2"}})
+			pcancel()
+			alive = perr == nil && len(pres.GetAccounts()) == 2
+		}
 		log.Emit(Ev{"ev": "FuzzEnd", "id": m.ID, "method": m.Method, "answered": answered, "detail": detail, "alive": alive})
 		if !alive {
 			return fmt.Errorf("server stopped answering after message %s: %v", m.ID, perr)
